@@ -264,3 +264,46 @@ def masked_log_crc(wal, ccrc=True):
 def big_stack(exe):
     """the extracted list functions are not tail recursive: run the model with a large stack"""
     return ["sh", "-c", "ulimit -s 4000000 2>/dev/null || ulimit -s unlimited 2>/dev/null; exec '%s'" % exe]
+
+
+def backup_event_files(d, ops, tr, ib, inside, at):
+    """event scripts for Backup.backup_run: before the call, while the main file is copied, at the end of WAL_COPY1"""
+    starts = {i: n for (_, i, n) in tr["marks"]}
+    order = sorted(starts)
+
+    def ev(i):
+        idx = order.index(i)
+        a = starts[i]
+        b = starts[order[idx + 1]] if idx + 1 < len(order) else len(tr["lsn"])
+        lines = [" ".join(f) for _, f in tr["lsn"][a:b]]
+        o = tr["ops"].get(i, {})
+        if o.get("rc") == "0":
+            if ops[i][0] in "sn":
+                lines.append("P 1")
+            elif ops[i][0] == "c":
+                lines.append("K")
+        return lines
+    pre, ins = [], []
+    for i in order:
+        if i < ib:
+            pre += ev(i)
+        elif ib < i <= ib + inside:
+            ins += ev(i)
+    open(os.path.join(d, "events"), "w").write("\n".join(pre) + "\n")
+    open(os.path.join(d, "eventsM"), "w").write("\n".join(ins if at >= 1 else []) + "\n")
+    open(os.path.join(d, "eventsA"), "w").write("\n".join(ins if at == 0 else []) + "\n")
+
+
+def masked_image_crc(img):
+    """CRC of a backup image with the savepoint timestamps and segment checksums of its log part zeroed"""
+    if len(img) < 12:
+        return "%d:short" % len(img)
+    mlen = int.from_bytes(img[-12:-4], "little")
+    b = bytearray(img)
+    logpart = bytes(img[mlen:len(img) - 12]) if mlen <= len(img) - 12 else b""
+    for p, op, sz in frame(logpart):
+        if op == 127:
+            b[mlen + p + 4:mlen + p + 8] = b"\0\0\0\0"
+        elif op == 5:
+            b[mlen + p + 4:mlen + p + 12] = bytes(8)
+    return "%d:%08x" % (len(b), zlib.crc32(bytes(b)) & 0xffffffff)
